@@ -10,6 +10,7 @@ mod paths;
 mod render;
 mod textual;
 mod run;
+mod sched;
 mod topics;
 
 use serde_json::Value as J;
